@@ -87,13 +87,23 @@ pub fn pressure_rom(op: u8) -> crate::rom::RomImage {
 /// with different banks mapped at that moment, and addresses translated before a
 /// restart are executed again after it - under the same and under other banks.
 pub fn pressure_rom2() -> crate::rom::RomImage {
+    pressure_rom_ops([0x3cu8, 0x0c, 0x14, 0x1c, 0x3d, 0x0d, 0x15], 0)
+}
+
+/// the same program with the run of every bank ending at a different offset (97 bytes
+/// earlier from bank to bank): executing one bank's translation under another bank shows in
+/// the cycle count of the block, not only in the registers
+pub fn pressure_rom3() -> crate::rom::RomImage {
+    pressure_rom_ops([0x3cu8, 0x0c, 0x14, 0x1c, 0x3d, 0x0d, 0x15], 97)
+}
+
+fn pressure_rom_ops(ops: [u8; 7], shorten: usize) -> crate::rom::RomImage {
     let mut rom = crate::rom::RomImage::new(0x03, 0x02, 0x03, 0x00);
-    let ops = [0x3cu8, 0x0c, 0x14, 0x1c, 0x3d, 0x0d, 0x15];
     for bank in 1..8usize {
-        for a in 0..0x3fff {
-            rom.bytes[bank * 0x4000 + a] = ops[bank - 1];
+        let end = 0x3fff - shorten * (bank - 1);
+        for a in 0..0x4000 {
+            rom.bytes[bank * 0x4000 + a] = if a < end { ops[bank - 1] } else { 0xc9 };
         }
-        rom.bytes[bank * 0x4000 + 0x3fff] = 0xc9;
     }
     let main: [u8; 46] = [
         0x31, 0xf0, 0xdf, 0x21, 0x00, 0x40, 0x06, 0x02, // LD SP; LD HL,0x4000; LD B,2
